@@ -15,7 +15,9 @@ package main
 // aborts the run, which the check reports.
 
 import (
+	"errors"
 	"fmt"
+	"slices"
 	"runtime"
 	"sort"
 	"strconv"
@@ -88,8 +90,38 @@ func cvReverse(f *fox.Router, p cvProbe) string {
 
 // cvApply moves router f from version `from` to version `to` in ONE write transaction
 func cvApply(f *fox.Router, from, to int) error {
+	// the methods of the version being left, for the Truncate variants (a custom verb loses its root altogether)
+	var methods []string
+	if from >= 0 {
+		for _, r := range cvVersions[from] {
+			if !slices.Contains(methods, r.method) {
+				methods = append(methods, r.method)
+			}
+		}
+	}
+	variant := 0
+	if from >= 0 {
+		variant = (from + to) % 3
+	}
+	if variant == 2 {
+		// a transaction that truncates as its first write and is then rolled back: nothing of it may ever be visible
+		errAbort := errors.New("abort")
+		if err := f.Updates(func(txn *fox.Txn) error {
+			if err := txn.Truncate(methods...); err != nil {
+				return err
+			}
+			return errAbort
+		}); !errors.Is(err, errAbort) {
+			return fmt.Errorf("aborted transaction: %v", err)
+		}
+	}
 	return f.Updates(func(txn *fox.Txn) error {
-		if from >= 0 {
+		if from >= 0 && variant == 1 {
+			// Truncate(methods...) as the FIRST write of the transaction
+			if err := txn.Truncate(methods...); err != nil {
+				return err
+			}
+		} else if from >= 0 {
 			for _, r := range cvVersions[from] {
 				if _, err := txn.Delete(r.method, r.pattern); err != nil {
 					return err
